@@ -191,7 +191,8 @@ Top:
 				b = append(b, '#')
 			default:
 				b = append(b, '#')
-				b = p.Append(b, Fixnum(len(to.dims)), 0)
+				// The rank is always decimal and never takes a radix marker.
+				b = strconv.AppendInt(b, int64(len(to.dims)), 10)
 				b = append(b, 'A')
 			}
 			goto Top
